@@ -2,6 +2,7 @@ package mon
 
 import (
 	"fmt"
+	"strings"
 
 	"github.com/vektah/gqlparser/v2/ast"
 	"github.com/vektah/gqlparser/v2/parser"
@@ -225,4 +226,49 @@ func c06Builtin(x *core.Ctx, c *core.Case) {
 	if err == nil {
 		check("ParseSchemasWithLimit", sd2, nil)
 	}
+	// Merge, the exported building block of ParseSchemas: one parsed document merged into two fresh documents, each of which
+	// then receives another document - what the first assembly lists must not change when the second is put together
+	if len(srcs) >= 2 {
+		base, _ := parser.ParseSchema(srcs[0])
+		extra1, _ := parser.ParseSchema(srcs[1])
+		extra2, _ := parser.ParseSchema(srcs[len(srcs)-1])
+		if base != nil && extra1 != nil && extra2 != nil {
+			names := func(d *ast.SchemaDocument) string {
+				var b strings.Builder
+				for _, x := range d.Definitions {
+					b.WriteString("def " + x.Name + ";")
+				}
+				for _, x := range d.Extensions {
+					b.WriteString("ext " + x.Name + ";")
+				}
+				for _, x := range d.Directives {
+					b.WriteString("dir " + x.Name + ";")
+				}
+				fmt.Fprintf(&b, "schema %d/%d", len(d.Schema), len(d.SchemaExtension))
+				return b.String()
+			}
+			one, two := &ast.SchemaDocument{}, &ast.SchemaDocument{}
+			one.Merge(base)
+			two.Merge(base)
+			one.Merge(extra1)
+			before := names(one)
+			two.Merge(extra2)
+			two.Merge(extra1)
+			x.Count("merge_assemblies")
+			if after := names(one); after != before {
+				x.Violate("merge:assembly-changed-by-another", after, before)
+			}
+			if got, want := names(base), names(mustParse(srcs[0])); got != want {
+				x.Violate("merge:merged-document-changed", got, want)
+			}
+		}
+	}
+}
+
+func mustParse(s *ast.Source) *ast.SchemaDocument {
+	d, err := parser.ParseSchema(s)
+	if err != nil {
+		return &ast.SchemaDocument{}
+	}
+	return d
 }
